@@ -65,6 +65,35 @@ def replace_field(b, entry_index, field, payload, xz=False):
     return False
 
 
+def realtime_of(b, entry_index):
+    return struct.unpack_from("<Q", b, entry_offsets(b)[entry_index] + 24)[0]
+
+
+def set_realtime(b, entry_index, value):
+    """overwrite the receive time (CLOCK_REALTIME, microseconds) stored in ENTRY object #entry_index"""
+    struct.pack_into("<Q", b, entry_offsets(b)[entry_index] + 24, value)
+
+
+def clock_variants(base, prefix):
+    """journals whose receive times are not strictly increasing in journal order: a backwards clock step, ties"""
+    n = len(entry_offsets(base))
+    if n >= 3:
+        b = bytearray(base)
+        set_realtime(b, 1, realtime_of(b, 0) - 1300000)
+        yield "nm_%s_backstep" % prefix, bytes(b)
+        b = bytearray(base)
+        set_realtime(b, 1, realtime_of(b, 0))
+        yield "%s_tie" % prefix, bytes(b)
+    if n >= 12:
+        b = bytearray(base)
+        # from entry n//3 on the clock was set back by 2.5 s for six entries; two of them share one value
+        k = n // 3
+        for i in range(k, k + 6):
+            set_realtime(b, i, realtime_of(b, i) - 2500000 - (realtime_of(b, i) - realtime_of(b, k)) // 2)
+        set_realtime(b, k + 3, realtime_of(b, k + 2))
+        yield "nm_%s_step6" % prefix, bytes(b)
+
+
 def variants(base):
     """yield (name, bytes) journals derived from the 3-entry base journal"""
     long_msg = b"MESSAGE=" + b"".join(b"long message part %04d; " % i for i in range(80))
